@@ -31,7 +31,7 @@ def parse_log(lines, root=""):
         if line.startswith("# step"):
             f = line.split()
             if f[3] == "begin":
-                cur = {"step": int(f[2]), "kind": f[4], "events": [], "returned_at": None, "staged_at": 0}
+                cur = {"step": int(f[2]), "kind": f[4], "events": [], "returned_at": None, "staged_at": 0, "start": int(f[5]) if len(f) > 5 else None}
                 steps.append(cur)
             elif f[3] == "returned":
                 cur["returned_at"] = len(cur["events"])
